@@ -85,9 +85,30 @@ def bin_inputs(W, j="", cross=True, psd_cs=True, pos=True):
     return dict(XX=XX, YY=YY, XY=XY, S2=S2, S12=S12, M2=M2, navg=n, f=fj, r=rj, L=Lj, b=bj)
 
 
+_CFG = {}
+
+
+def result_config(W):
+    """the configuration dictionary a result carries: the one a real SpectrumAnalyzer hands over (all its keys, concrete values of a
+    default analysis) with the detrending order symbolic in {-1, 0, 1, 2} -- so that a result-level computation that consults the
+    configuration is followed on every branch"""
+    if "base" not in _CFG:
+        import speckit.analysis as A
+        try:
+            a = A.SpectrumAnalyzer(rnp.arange(16.0), 2.0)
+            _CFG["base"] = {k: v for k, v in a.config.items()}
+        except Exception:
+            _CFG["base"] = {}
+    cfg = dict(_CFG["base"])
+    o = W.int("cfg_order", lo=-1, hi=2)
+    cfg["order"] = o if W.sym else int(o)
+    return cfg
+
+
 def mk(W, bins, cross, fs, f=None, extra=None):
     """a result object with len(bins) frequency bins"""
     nf = len(bins)
+    config = result_config(W)
     fvals = f if f is not None else [b["f"] if "f" in b else float(i + 1) for i, b in enumerate(bins)]
     if W.sym:
         d = {k: oarr([b[k] for b in bins]) for k in ("XX", "YY", "XY", "S2", "S12", "M2", "navg")}
@@ -99,7 +120,7 @@ def mk(W, bins, cross, fs, f=None, extra=None):
         d["f"] = oarr(fvals) if any(isinstance(v, SR) for v in fvals) else rnp.array(fvals, dtype=float)
         if extra:
             d.update(extra)
-        return sym_class()(d, {}, cross, fs)
+        return sym_class()(d, config, cross, fs)
     import speckit.analysis as A
     d = {"XX": rnp.array([b["XX"] for b in bins], dtype=float), "YY": rnp.array([b["YY"] for b in bins], dtype=float),
          "XY": rnp.array([b["XY"] for b in bins], dtype=complex), "S2": rnp.array([b["S2"] for b in bins], dtype=float),
@@ -110,7 +131,7 @@ def mk(W, bins, cross, fs, f=None, extra=None):
                  K=rnp.array([b["navg"] for b in bins], dtype=rnp.int64))
     if extra:
         d.update(extra)
-    return A.SpectrumResult(d, {}, cross, fs)
+    return A.SpectrumResult(d, config, cross, fs)
 
 
 def el(v, i=0):
